@@ -255,7 +255,7 @@ def carrier_obligations(chk):
         from pyvc.stmt import LoopSpec
         I.loop_specs[(f"{UN}.StructuredTypeUnmarshaller.__call__", 0)] = LoopSpec("required-keys", lambda I, p, e, k: None,
                                                                                   lambda I, p, e, k: [])
-        for k_ in (0, 1):
+        for k_ in (0, 1, 2):
             I.loop_specs[(f"{UN}.LiteralUnmarshaller.__call__", k_)] = LoopSpec(f"literals{k_}", lambda I, p, e, k: None,
                                                                                 lambda I, p, e, k: [])
         func = f"{UN}.{clsname}.__call__"
@@ -387,7 +387,13 @@ def literal_relational(chk):
         def inv(I, path, env, k):
             cand = to_val(env.lookup(_outer_loop_target(I, func)))
             return [Q([IntS], lambda j: z3.Implies(z3.And(j >= 0, j < k), z3.Not(pyeq(vv(j), cand))), name="no-earlier-match")]
-        I.loop_specs[(func, 1)] = LoopSpec("values", lambda I, p, e, k: None, inv)   # the inner loop over the literals
+        def inv_exact(I, path, env, k):
+            cand = to_val(env.lookup(_outer_loop_target(I, func)))
+            return [Q([IntS], lambda j: z3.Implies(z3.And(j >= 0, j < k), z3.Not(z3.And(cls_of(vv(j)) == cls_of(cand), pyeq(vv(j), cand)))),
+                      name="no-earlier-match-of-the-same-class")]
+        # the two inner loops over the literals: one of the candidate's own class first, then any equal one
+        I.loop_specs[(func, 1)] = LoopSpec("values-of-the-same-class", lambda I, p, e, k: None, inv_exact)
+        I.loop_specs[(func, 2)] = LoopSpec("values", lambda I, p, e, k: None, inv)
 
         def mk(I, path):
             path.assume(nv >= 0)
